@@ -5,7 +5,7 @@
    (integer data are promoted; the model has no dtypes). *)
 From Coq Require Import QArith Qcanon ZArith List Bool Arith.
 Import ListNotations.
-Require Import NV.C06.Model NV.C06.Proofs.
+Require Import NV.C06.Model NV.C06.Proofs NV.C06.Proofs2.
 Local Open Scope Qc_scope.
 
 (* Field.integrate, BOTH code paths (scalar-volume shortcut `sum(spaces) * swgt`, and
@@ -95,6 +95,42 @@ Theorem C06_pointwise :
   forall (k : nat) (f : C -> C -> C) (dom : domain) (a b : tens k),
     binop k f dom dom a b = Some (tzip k f a b).
 Proof. exact binop_pointwise. Qed.
+
+(* ---- round-6 extension: MultiField.s_sum (my_sum = left fold over the entries of Field.s_sum) and
+   MultiField * scalar (the scalar branch of MultiField._binary_op) ---- *)
+
+(* For every MultiField with at least one entry (any number of entries, any ranks/shapes/values),
+   the left fold of utilities.my_sum returns the plain total: the sum over the entries of the sum
+   over all their pixels; it is defined (reduce() does not raise) iff there is an entry. *)
+Theorem C06_mf_s_sum_is_total :
+  forall a : mfield, a <> [] -> ms_sum a = Some (mtotal a).
+Proof. exact ms_sum_total. Qed.
+
+Theorem C06_mf_s_sum_defined_iff :
+  forall a : mfield, (exists v, ms_sum a = Some v) <-> a <> [].
+Proof. exact ms_sum_defined_iff. Qed.
+
+(* s_sum over a MultiField whose entries are split into two MultiFields is the sum of both. *)
+Theorem C06_mf_s_sum_additive :
+  forall (a b : mfield) (va vb : C),
+    ms_sum a = Some va -> ms_sum b = Some vb -> ms_sum (a ++ b) = Some (cadd va vb).
+Proof. exact ms_sum_app. Qed.
+
+(* s_sum is homogeneous w.r.t. the scalar branch of MultiField._binary_op('__mul__'):
+   (mf * c).s_sum() = mf.s_sum() * c for every complex scalar c. *)
+Theorem C06_mf_s_sum_scalar_mul :
+  forall (a : mfield) (c v : C),
+    ms_sum a = Some v -> ms_sum (mbinop_scalar cmul a c) = Some (cmul v c).
+Proof. exact ms_sum_scalar_mul. Qed.
+
+(* Non-vacuity of the above: {0: [1,2] on RG(2), 1: [3] on a 1-pixel space}: s_sum = 6; times 2: 12 *)
+Example C06_mf_s_sum_example :
+  let zz := fun n : Z => (Q2Qc (inject_Z n), Q2Qc 0) : C in
+  let d1 := [mkSp 2%nat (Uniform (Q2Qc 1))] in
+  let d2 := [mkSp 1%nat (Uniform (Q2Qc 1))] in
+  let a : mfield := [mkEnt 0%nat 1%nat d1 [zz 1%Z; zz 2%Z]; mkEnt 1%nat 1%nat d2 [zz 3%Z]] in
+  ms_sum a = Some (zz 6%Z) /\ ms_sum (mbinop_scalar cmul a (zz 2%Z)) = Some (zz 12%Z).
+Proof. cbv zeta. split; vm_compute; reflexivity. Qed.
 
 (* Non-vacuity: RGSpace(2, distances 1/2) x DOFSpace([1/2, 2, 1]) with data [[1,2,3],[4,5,6]]:
    the hypotheses of C06_integrate hold; the full integral is 1/2*(1/2*1+2*2+1*3 + 1/2*4+2*5+1*6)
